@@ -42,6 +42,16 @@ def opPss : List String → String
     | _, _ => "bad-args"
   | _ => "bad-args"
 
+/-- `psb <limit|-1> <flags> <hex>…`: `ParseSchemas[WithLimit]` over sources whose `BuiltIn` flag is
+    the corresponding character of `flags` (`1` = built-in) -/
+def opPsb : List String → String
+  | l :: flags :: hs => match parseLimit l, hs.mapM fromHex with
+    | some lim, some srcs =>
+      let fl := flags.toList.map (· == '1')
+      obsResult Wire.schemaDoc (parseSchemas lim ((List.range srcs.length).zip srcs |>.map fun (i, b) => (fl.getD i false, b)))
+    | _, _ => "bad-args"
+  | _ => "bad-args"
+
 def opGoQuote : List String → String
   | [h] => match fromHex h with
     | some bs => toHexW (GoQuote.quote bs)
@@ -49,6 +59,6 @@ def opGoQuote : List String → String
   | _ => "bad-args"
 
 def parseOps : List (String × (List String → String)) :=
-  [("pq", opPq), ("ps", opPs), ("pss", opPss), ("goquote", opGoQuote)]
+  [("pq", opPq), ("ps", opPs), ("pss", opPss), ("psb", opPsb), ("goquote", opGoQuote)]
 
 end Gql.Ops
